@@ -63,7 +63,7 @@ func scenarioC17(rc *RunCtx) *Violation {
 			if g.n(3) != 0 {
 				return -1
 			}
-			return g.n(400)
+			return drawCancel(g)
 		}
 	}
 	cfg.ExtraEdit = func(step int, pp *Project, dd *verifsim.Disk) string {
